@@ -26,62 +26,62 @@ type Obligation struct {
 	Cond  string `json:"-"`
 	Desc  string `json:"desc,omitempty"`
 	// filled by the checker
-	Answer  string  `json:"answer,omitempty"`
-	Solver  string  `json:"solver,omitempty"`
-	Seconds float64 `json:"seconds,omitempty"`
-	Model   string  `json:"-"`
-	Tag     string  `json:"tag,omitempty"` // property-specific tag (e.g. schema instance)
-	ModelLite bool  `json:"model_lite,omitempty"`
-	AssertIdx int   `json:"-"`              // number of background assertions visible to this obligation
+	Answer    string  `json:"answer,omitempty"`
+	Solver    string  `json:"solver,omitempty"`
+	Seconds   float64 `json:"seconds,omitempty"`
+	Model     string  `json:"-"`
+	Tag       string  `json:"tag,omitempty"` // property-specific tag (e.g. schema instance)
+	ModelLite bool    `json:"model_lite,omitempty"`
+	AssertIdx int     `json:"-"` // number of background assertions visible to this obligation
 }
 
 type Query struct {
-	rtBase   string            // read tracking: address of the receiver object
-	rtLeaves map[string]Leaf   // array family -> leaf of the receiver type
-	newLoopHelpers map[string]bool
-	peakBase string
+	rtBase            string          // read tracking: address of the receiver object
+	rtLeaves          map[string]Leaf // array family -> leaf of the receiver type
+	newLoopHelpers    map[string]bool
+	peakBase          string
 	peakFam, peakAddr string // cost mode: array family and address of the root receiver's cursor field
-	costAssumed map[string]bool
-	eng       *Engine
-	decls     []string
-	declared  map[string]bool
-	asserts   []string
-	obls      []*Obligation
-	strConsts map[string]string
-	strOrder  []string
-	counter   int
-	notes     map[string]bool
-	nameCount map[string]int
-	opts      *VCOpts
-	epochCtr  int
-	uninterp  map[string]bool
-	covers    []string // reach conditions that must be satisfiable (vacuity guard)
+	costAssumed       map[string]bool
+	eng               *Engine
+	decls             []string
+	declared          map[string]bool
+	asserts           []string
+	obls              []*Obligation
+	strConsts         map[string]string
+	strOrder          []string
+	counter           int
+	notes             map[string]bool
+	nameCount         map[string]int
+	opts              *VCOpts
+	epochCtr          int
+	uninterp          map[string]bool
+	covers            []string // reach conditions that must be satisfiable (vacuity guard)
 }
 
 type VCOpts struct {
 	TrackReads  map[string]string // entry-point mode (C08): leaf paths of the receiver that may be read before being assigned -> why
-	Cost        bool // count steps in the ghost counter $ticks (C20)
-	Safety      bool // emit idx/slice/nil/assert/div obligations
+	Cost        bool              // count steps in the ghost counter $ticks (C20)
+	Safety      bool              // emit idx/slice/nil/assert/div obligations
 	Overflow    bool
 	InlineDepth int
 	NoInline    map[string]bool
 	// hooks
-	OnCall   func(fr *Frame, ins ssa.CallInstruction, callee *ssa.Function, args []Val) // before the call effect
-	OnReturn func(fr *Frame, ret *ssa.Return, results []Val)
-	OnStore  func(fr *Frame, st *ssa.Store)
-	AutoContract func(fn *ssa.Function) *Contract // default contracts (e.g. cursor contract) when none is written
-	SafetyKinds map[string]bool // restrict safety kinds; nil = all
-	AfterCall func(fr *Frame, ins ssa.Instruction, c *ssa.CallCommon, callee *ssa.Function, args []Val, res Val)
-	OnMakeInterface func(fr *Frame, x *ssa.MakeInterface, iv Val)
-	CheckTags map[string]bool // clause groups whose obligations this run generates (nil: the untagged, structural group only)
-	RG          bool // rely/guarantee obligations at atomic updates of cells with an rg spec
-	OnMapLookup func(fr *Frame, x *ssa.Lookup, v Val)   // after a map read: object invariants of stored values may be assumed
-	OnMapUpdate func(fr *Frame, x *ssa.MapUpdate)        // before a map write: object invariants of the stored value are obligations
-	StrConstFact func(q *Query, sym string) string // extra fact asserted about every string literal when it is first used
+	OnCall           func(fr *Frame, ins ssa.CallInstruction, callee *ssa.Function, args []Val) // before the call effect
+	OnReturn         func(fr *Frame, ret *ssa.Return, results []Val)
+	OnStore          func(fr *Frame, st *ssa.Store)
+	AutoContract     func(fn *ssa.Function) *Contract // default contracts (e.g. cursor contract) when none is written
+	SafetyKinds      map[string]bool                  // restrict safety kinds; nil = all
+	AfterCall        func(fr *Frame, ins ssa.Instruction, c *ssa.CallCommon, callee *ssa.Function, args []Val, res Val)
+	OnMakeInterface  func(fr *Frame, x *ssa.MakeInterface, iv Val)
+	CheckTags        map[string]bool                       // clause groups whose obligations this run generates (nil: the untagged, structural group only)
+	RG               bool                                  // rely/guarantee obligations at atomic updates of cells with an rg spec
+	OnMapLookup      func(fr *Frame, x *ssa.Lookup, v Val) // after a map read: object invariants of stored values may be assumed
+	OnMapUpdate      func(fr *Frame, x *ssa.MapUpdate)     // before a map write: object invariants of the stored value are obligations
+	StrConstFact     func(q *Query, sym string) string     // extra fact asserted about every string literal when it is first used
 	InlineAcrossPkgs bool
-	ProtectParams bool
-	NoContents  bool // slice/string contents are not modelled (families are havoced instead): for properties about scalar state
-	GhostInit map[string]string // ghost scalar state vars with sort -> initial term handled by property driver
+	ProtectParams    bool
+	NoContents       bool              // slice/string contents are not modelled (families are havoced instead): for properties about scalar state
+	GhostInit        map[string]string // ghost scalar state vars with sort -> initial term handled by property driver
 }
 
 func newQuery(e *Engine, opts *VCOpts) *Query {
@@ -299,39 +299,39 @@ type deferRec struct {
 }
 
 type Frame struct {
-	callMode string // how the last call was modelled (cost accounting)
+	callMode        string // how the last call was modelled (cost accounting)
 	closureOverride *ssa.MakeClosure
-	q       *Query
-	fn      *ssa.Function
-	prefix  string
-	parent  *Frame
-	depth   int
-	vals    map[ssa.Value]Val
-	params  []Val
-	entry   *State // state at entry (for old())
-	entryReach string
-	edgeOut map[*ssa.BasicBlock][]flow // per succ slot
-	rets    []retRec
-	defers  []deferRec
-	cur     flow
-	curBlock *ssa.BasicBlock
-	contract *Contract
-	loops   map[*ssa.BasicBlock]*loopInfo
-	backEdge map[[2]int]bool
-	names   map[string][]ssa.Value
-	callOrd map[string]int
-	unsupported []string
-	ghost   map[string]string // frame-local ghost terms (property drivers)
-	panics  []flow
-	nonNilParams map[*ssa.Parameter]bool
-	locals  []localCell
-	autoDrop map[string]bool
-	protected []protectedObj
-	blockReach map[*ssa.BasicBlock]string
-	lastAtomicLoad map[string]string
-	localKey map[*ssa.Alloc]string
-	freeLocal map[*ssa.FreeVar]localRef
-	lastCallArgs []ssa.Value
+	q               *Query
+	fn              *ssa.Function
+	prefix          string
+	parent          *Frame
+	depth           int
+	vals            map[ssa.Value]Val
+	params          []Val
+	entry           *State // state at entry (for old())
+	entryReach      string
+	edgeOut         map[*ssa.BasicBlock][]flow // per succ slot
+	rets            []retRec
+	defers          []deferRec
+	cur             flow
+	curBlock        *ssa.BasicBlock
+	contract        *Contract
+	loops           map[*ssa.BasicBlock]*loopInfo
+	backEdge        map[[2]int]bool
+	names           map[string][]ssa.Value
+	callOrd         map[string]int
+	unsupported     []string
+	ghost           map[string]string // frame-local ghost terms (property drivers)
+	panics          []flow
+	nonNilParams    map[*ssa.Parameter]bool
+	locals          []localCell
+	autoDrop        map[string]bool
+	protected       []protectedObj
+	blockReach      map[*ssa.BasicBlock]string
+	lastAtomicLoad  map[string]string
+	localKey        map[*ssa.Alloc]string
+	freeLocal       map[*ssa.FreeVar]localRef
+	lastCallArgs    []ssa.Value
 }
 
 type protectedObj struct {
@@ -347,15 +347,15 @@ func (fr *Frame) root() *Frame {
 }
 
 type loopInfo struct {
-	header  *ssa.BasicBlock
-	blocks  map[*ssa.BasicBlock]bool
-	backs   []*ssa.BasicBlock // sources of back edges
-	ordinal int
-	inState *State
-	inReach string
-	hdrState *State
-	phiVals map[*ssa.Phi]Val
-	spec    *LoopSpec
+	header      *ssa.BasicBlock
+	blocks      map[*ssa.BasicBlock]bool
+	backs       []*ssa.BasicBlock // sources of back edges
+	ordinal     int
+	inState     *State
+	inReach     string
+	hdrState    *State
+	phiVals     map[*ssa.Phi]Val
+	spec        *LoopSpec
 	decAtHeader string
 }
 
